@@ -739,7 +739,14 @@ pub fn regression_table() -> Vec<Case> {
     fn neg(e: Box<E>) -> Box<E> {
         Box::new(E::Sign(true, e))
     }
-    let trees: Vec<Box<E>> = vec![
+    // quotient chains that LOOK like dates but are not valid ones: they stay arithmetic (the excluded chains are exactly
+    // the valid dates)
+    let mut chains: Vec<Box<E>> = vec![];
+    for (a, bb, c) in [(29.0, 2.0, 1900.0), (29.0, 2.0, 2100.0), (29.0, 2.0, 1800.0), (29.0, 2.0, 2021.0), (30.0, 2.0, 2020.0), (31.0, 4.0, 2020.0), (31.0, 6.0, 2021.0), (31.0, 9.0, 1999.0), (31.0, 11.0, 2000.0), (32.0, 1.0, 2020.0), (1.0, 13.0, 2020.0), (15.0, 13.0, 1999.0), (29.0, 2.0, 100.0)] {
+        chains.push(b(Op::Div, b(Op::Div, l(a), l(bb)), l(c)));
+        chains.push(b(Op::Add, l(1.0), b(Op::Mul, b(Op::Div, b(Op::Div, l(a), l(bb)), l(c)), l(4.0))));
+    }
+    let mut trees: Vec<Box<E>> = vec![
         // F20: 3 * - 5 + 2
         b(Op::Add, b(Op::Mul, l(3.0), neg(l(5.0))), l(2.0)),
         // 5 - - 3 * 2
@@ -770,6 +777,7 @@ pub fn regression_table() -> Vec<Case> {
         j(b(Op::Mul, l(2.0), l(3.0)), l(4.0)),
         j(suf(2.0, 'k'), l(3.0)),
     ];
+    trees.extend(chains);
     let mut out = vec![];
     for t in trees {
         for sp in 0..2u8 {
